@@ -14,7 +14,10 @@ use crate::{
 #[derive(Debug, Clone, PartialEq, Eq)]
 pub enum FunctionReference {
     Foreign(CompactString),
-    Normal(CompactString),
+    /// Name of the function and the index of its bytecode, which identifies the
+    /// definition that was in effect when the reference was created (a function
+    /// of the same name can be defined again later on).
+    Normal(CompactString, usize),
     // TODO: We can get rid of this variant once we implement closures:
     TzConversion(CompactString),
 }
@@ -23,7 +26,7 @@ impl std::fmt::Display for FunctionReference {
     fn fmt(&self, f: &mut std::fmt::Formatter<'_>) -> std::fmt::Result {
         match self {
             FunctionReference::Foreign(name) => write!(f, "<builtin function: {name}>"),
-            FunctionReference::Normal(name) => write!(f, "<function: {name}>"),
+            FunctionReference::Normal(name, _) => write!(f, "<function: {name}>"),
             FunctionReference::TzConversion(tz) => {
                 write!(f, "<builtin timezone conversion function: {tz}>")
             }
